@@ -7,6 +7,7 @@ CONSTANTS
   Merge = "grid"
   Sep = "each"
   Dedup = "none"
+  Width = "widest"
   MaxSpecial = 2
   FullCells = 4
   MaxRepeat = 4
